@@ -66,9 +66,11 @@ def d13_applies(f: dict) -> bool:
     return f["kind"] in ("fir", "csfir")
 
 
-def check_case(chk: Check, case: dict, label: str):
+def check_case(chk: Check, case: dict, label: str, make=None):
+    """make: builds the filter under test (default: the generic class with the case's coefficients); the shipped preset
+    class is passed here so that ITS methods are the ones compared with the specification's output"""
     f, sig, blocks = case["f"], case["sig"], case["blocks"]
-    flt, dt = make_real(f)
+    flt, dt = make() if make else make_real(f)
     key = (label, json.dumps(f), tuple(sig), tuple(blocks))
     chk.evaluated(key, nontrivial=len(blocks) > 1)
     payload = {"f": f, "sig": sig, "blocks": blocks}
@@ -202,6 +204,8 @@ def run(chk: Check):
         check_reset(chk, f, sigs[-1])
     # the real ChickenSys FIR preset, exactly
     ext = [[32767] * 24, [-32768] * 22, [32767 if i % 2 else -32768 for i in range(26)],
+           [0] * 6 + [32767] * 8 + [0] * 8 + [-32768] * 6, [-32768, 32767, 32767, 32767, -32768] * 5,      # plateau onsets / ends, sign runs: overshoot
+           [(32767 if h > 0 else -32768) for h in CS_H] + [0] * 4,                                        # tap-signed pattern: the largest possible sum
            [rng.randint(-32768, 32767) for _ in range(30)], [rng.randint(-32768, 32767) for _ in range(21)]]
     cs = F("csfir", CS_H, CS_M0, CS_K)
     n_sim = 40 if thorough else 12
@@ -214,6 +218,7 @@ def run(chk: Check):
         if list(p.h) != CS_H or p.k_gain != CS_K or p.m0 != CS_M0:
             chk.drift("preset_constants_differ_from_spec")
         check_case(chk, c, "cs19")
+        check_case(chk, c, "cs19-preset", make=lambda: (common.ChickSysRolandDeemphFilter(), np.int16))      # the shipped class itself
     # schedules for the float presets: compositions of lengths 24..60 drawn by TLC (identity IIR as carrier)
     carrier = [F("iir", b=[1], a=[1])]
     lens = [24, 40, 60] if thorough else [24, 40]
